@@ -19,6 +19,7 @@ import (
 
 type model interface {
 	writes(ft *FT) []string
+	writesCall(ft *FT, c *ssa.CallCommon) []string
 	apply(ft *FT, st *State, guard Term, c *ssa.CallCommon, args []Term, pos token.Pos) []Term
 }
 
@@ -609,6 +610,10 @@ func (e *Engine) verifyFunc(key string, sem chan struct{}) *FuncResult {
 		query := b.String()
 		if len(query) > fr.VCBytes {
 			fr.VCBytes = len(query)
+		}
+		if len(query) > 4<<20 {
+			results[i] = &OblResult{Obl: o, Status: "error", Solver: "none", Raw: fmt.Sprintf("VC too large (%d bytes): split or abstract the function", len(query))}
+			continue
 		}
 		if !o.Cover && (o.Goal == "true" || o.Guard == "false") {
 			results[i] = &OblResult{Obl: o, Status: "discharged", Solver: "trivial"}
